@@ -150,18 +150,25 @@ def judge_assignment(acc, case, tag, rp, plabs, rlabs, asg, metric, thr, m2o, si
     return ok, frozenset(pairs)
 
 
-def thresholds_for(rp, metric, acc=None, pairs=None):
-    """every threshold class; for ASSD an exact-hit threshold is only used when the reference arithmetic is
-    order independent (all contributing distances integral), otherwise it is dropped and counted"""
+def thresholds_for(rp, metric, acc=None, pairs=None, shape=None):
+    """every threshold class; an exact-hit threshold is only used when the library's own score of that pair is
+    bit-identical to the reference value and, for ASSD, the reference arithmetic is order independent (all contributing
+    distances integral); otherwise it is dropped and counted"""
+    from ..e2e import lib_pair_score
+
     thrs = rp.thresholds(metric, pairs)
-    if metric == "ASSD":
-        cands = rp.cands if pairs is None else pairs
-        bad = {rp.score("ASSD", p, r) for p, r in cands if not rp.assd_integral(p, r)}
-        keep = [t for t in thrs if t not in bad]
-        if acc is not None and len(keep) != len(thrs):
-            acc.count("near_threshold_skipped", len(thrs) - len(keep))
-        thrs = keep
-    return thrs
+    cands = rp.cands if pairs is None else pairs
+    bad = set()
+    for p, r in cands:
+        s = rp.score(metric, p, r)
+        if metric == "ASSD" and not rp.assd_integral(p, r):
+            bad.add(s)
+        elif shape is not None and lib_pair_score(metric, shape, rp.R[r], rp.P[p]) != s:
+            bad.add(s)
+    keep = [t for t in thrs if t not in bad]
+    if acc is not None and len(keep) != len(thrs):
+        acc.count("near_threshold_skipped", len(thrs) - len(keep))
+    return keep
 
 
 def run_case(case, acc):
@@ -174,7 +181,7 @@ def run_case(case, acc):
         return
     plabs, rlabs = sorted(pv), sorted(rv)
     rp = rm.RefPair([pv[l] for l in plabs], [rv[l] for l in rlabs])
-    thrs = [case["thr"]] if "thr" in case else thresholds_for(rp, metric, acc)
+    thrs = [case["thr"]] if "thr" in case else thresholds_for(rp, metric, acc, shape=pred.shape)
     m2os = [case["m2o"]] if "m2o" in case else [False, True]
     if acc.evaluations % 2003 == 1:
         acc.sample({"pred": pred.tolist(), "ref": ref.tolist(), "metric": metric, "thresholds": thrs, "many_to_one": m2os})
